@@ -360,6 +360,7 @@ func (w *World) computeFlow(k flowKey) *FlowResult {
 	c.univ = w.fieldUniverse(f.Params[k.track].Type())
 	c.computeDead()
 	c.prov = w.newProv(f, c.dead)
+	c.prov.distinctParams, c.prov.sameA, c.prov.sameB = true, k.track, k.alias
 	c.prov.deadEdgeFn = func(from, to *ssa.BasicBlock) bool {
 		for i, s := range from.Succs {
 			if s == to && !c.edgeDead(from, i) {
@@ -638,7 +639,16 @@ func (c *flowCtx) applyEffects(effs []Effect, s *fstate, record bool) {
 	}
 }
 
-func (c *flowCtx) valueTag(v ssa.Value) string { return fmt.Sprintf("copyv:%p", v) }
+func (c *flowCtx) valueTag(v ssa.Value) string {
+	// a copy of one of the package's shared values (decimalNaN, decimalInfinity, …) keeps its name: the
+	// tag survives composition into callers
+	if u, ok := v.(*ssa.UnOp); ok && u.Op == token.MUL {
+		if g, ok := u.X.(*ssa.Global); ok && g.Pkg == c.w.SSA {
+			return "shared:" + g.Name()
+		}
+	}
+	return fmt.Sprintf("copyv:%p", v)
+}
 
 // strongWrite: the write effect e is the only possible target of its address
 // operand (no other write effect of the same instruction has a different root).
@@ -682,6 +692,9 @@ func (c *flowCtx) applyRead(e Effect, s *fstate, record bool) {
 				}
 				if e.Ptr != nil && tag == c.valueTag(e.Ptr) {
 					continue // the value read is the very one that was copied
+				}
+				if e.Ptr != nil && s.via[e.Ptr][fl] {
+					continue // read back through the very pointer the result was written through
 				}
 				if record {
 					key := fl + "@" + c.w.instrPos(e.In) + e.Via + tag
@@ -992,11 +1005,47 @@ func (w *World) isErrorReturn(r *ssa.Return) bool {
 				return true
 			}
 		}
+		// a helper that returns the very Condition it found the System* flag in: its caller's goError
+		// turns that into the error
+		for _, tv := range w.systemTestedValues(r.Block(), 0) {
+			for _, v := range r.Results {
+				if v == tv {
+					return true
+				}
+			}
+		}
 	}
 	for _, v := range r.Results {
 		if typeIs(v.Type(), apdPath, "Condition") {
 			if k, ok := v.(*ssa.Const); ok && k.Value != nil {
 				if n, ok := constant.Uint64Val(k.Value); ok && n&3 != 0 {
+					return true
+				}
+			}
+			// the outcome of a classifying helper (0, or a constant with a System* flag), returned under
+			// the test that it is not 0
+			if ks, ok := w.constResultsOf(v); ok {
+				allSys := true
+				for _, k := range ks {
+					if k != 0 && k&3 == 0 {
+						allSys = false
+					}
+				}
+				nonZero := false
+				for _, g := range guardsAt(r.Block()) {
+					if bo, isB := g.Cond.(*ssa.BinOp); isB && (bo.X == v || bo.Y == v) {
+						other := bo.Y
+						if bo.Y == v {
+							other = bo.X
+						}
+						if k, isK := other.(*ssa.Const); isK && k.Value != nil && ci(k) == 0 {
+							if (bo.Op == token.NEQ && g.Val) || (bo.Op == token.EQL && !g.Val) {
+								nonZero = true
+							}
+						}
+					}
+				}
+				if allSys && nonZero {
 					return true
 				}
 			}
@@ -1260,4 +1309,26 @@ func (w *World) systemMaskTestEdge(cond ssa.Value, trueEdge bool) bool {
 		}
 	}
 	return false
+}
+
+// systemTestedValues: the Condition values whose System* test guards block b (see underSystemTest).
+func (w *World) systemTestedValues(b *ssa.BasicBlock, depth int) []ssa.Value {
+	var out []ssa.Value
+	if depth > 4 {
+		return nil
+	}
+	for _, p := range b.Preds {
+		switch t := p.Instrs[len(p.Instrs)-1].(type) {
+		case *ssa.If:
+			if c, ok := t.Cond.(*ssa.Call); ok && len(c.Common().Args) > 0 {
+				n := w.calleeName(c)
+				if n == "(Condition).SystemOverflow" || n == "(Condition).SystemUnderflow" {
+					out = append(out, c.Common().Args[0])
+				}
+			}
+		case *ssa.Jump:
+			out = append(out, w.systemTestedValues(p, depth+1)...)
+		}
+	}
+	return out
 }
